@@ -15,10 +15,17 @@ Theorem C13_counter_monotone : forall t k, k <= snd (instantiate k t).
 Proof. exact instantiate_counter. Qed.
 Print Assumptions C13_counter_monotone.
 
+(* non-string path fields (default single-segment template): the mock value renders as one valid segment *)
+Theorem C13_typed_nonstring_matches : forall v, (exists n, v = VI n) \/ (exists b, v = VB b) -> matches [SStar] (render v) = true.
+Proof. exact typed_nonstring_matches. Qed.
+Print Assumptions C13_typed_nonstring_matches.
+
 Example C13_nontrivial :
   sample_value 0 [SLit "v1"; SLit "projects"; SStar; SLit "books"; SDStar] = "v1/projects/sample1/books/sample2"
   /\ matches [SLit "projects"; SStar; SDStar] ["projects"; "p"; "a"; "b"] = true
   /\ matches [SLit "projects"; SStar] ["projects"; ""] = false
-  /\ sample_name 12 = "sample12".
+  /\ sample_name 12 = "sample12"
+  /\ sample_typed 0 [("project_number", "project_number", PInt, [SStar]); ("name", "name", PStr, [SLit "a"; SStar])]
+     = [("project_number", VI 1503); ("name", VS "a/sample1")].
 Proof. vm_compute. repeat split. Qed.
 Print Assumptions C13_nontrivial.
